@@ -173,9 +173,12 @@ def special(mid, txt):
 
 
 def first_failing_lemma(out):
-    m = re.search(r'File "\./((?:Proofs|Properties|Gen)/[\w]+\.v)", line (\d+)', out)
-    if not m:
+    ms = list(re.finditer(r'File "\./((?:Proofs|Properties|Gen)/[\w]+\.v)", line (\d+)', out))
+    if not ms:
         return None
+    # the first failure inside the translator tie (Proofs/Src*.v, Properties/*_src*.v), else the first failure at all
+    mine = [m for m in ms if m.group(1).startswith('Proofs/Src') or '_src' in m.group(1)]
+    m = (mine or ms)[0]
     f, ln = m.group(1), int(m.group(2))
     name = None
     for i, l in enumerate(open(os.path.join(V, 'coq', f)), 1):
